@@ -58,6 +58,33 @@ theorem C17_zero_power_all_to_community (s : St) (tax : Int) (vals : List ValIn)
                     pool := { s.pool with community := s.pool.community + s.fc * PREC } } := by
   simp [allocateTokens, allocateTokensWith]
 
+/-- A validator whose operator has NO staker left (everything undelegated, staker list deleted by
+a slash) while it still has voting power: the whole staker part of its portion is booked to the
+community pool — nothing is dropped. -/
+theorem C17_empty_staker_list_remainder_to_community (rw : Book) (c R : Int) :
+    allocStakers rw c [] R = some (rw, c + R) := by
+  simp [allocStakers, occTotal]
+
+/-- the same when stakers are listed but none has power (jailed / inactive operator, slashed to
+zero): total power ≤ 0 ⇒ everything to the community pool, staker book untouched -/
+theorem C17_no_staker_power_remainder_to_community (rw : Book) (c : Int) (occ : List (String × Int)) (R : Int)
+    (h : occTotal occ ≤ 0) : allocStakers rw c occ R = some (rw, c + R) := by
+  have : ¬ 0 < occTotal occ := by omega
+  simp [allocStakers, this]
+
+/-- at the validator level: with an empty staker list the claims still grow by exactly the
+portion (commission to the operator, the rest to the community pool) -/
+theorem C17_empty_staker_list_validator (p : Pool) (v : ValIn) (tokens : Int) (hv : v.stakers = [])
+    (hs : 0 ≤ tokens - (Dec.mul ⟨tokens⟩ ⟨v.rate⟩).raw) :
+    ∃ p', allocValidator p v tokens = some p' ∧ claims p' = claims p + tokens ∧ p'.rewards = p.rewards ∧
+      p'.community = p.community + (tokens - (Dec.mul ⟨tokens⟩ ⟨v.rate⟩).raw) := by
+  have hn : ¬ tokens - (Dec.mul ⟨tokens⟩ ⟨v.rate⟩).raw < 0 := by omega
+  refine ⟨{ community := p.community + (tokens - (Dec.mul ⟨tokens⟩ ⟨v.rate⟩).raw),
+             commission := bookAdd p.commission v.op (Dec.mul ⟨tokens⟩ ⟨v.rate⟩).raw, rewards := p.rewards,
+             outstanding := bookAdd p.outstanding v.op tokens },
+          by simp [allocValidator, allocValidatorWith, hn, hv, C17_empty_staker_list_remainder_to_community], ?_, rfl, rfl⟩
+  simp only [claims, bookSum_bookAdd]; omega
+
 /-! ## each validator's portion -/
 
 /-- One validator step books exactly its portion: the outstanding rewards grow by the portion,
